@@ -8,6 +8,7 @@ import (
 	"io"
 	"sync"
 	"sync/atomic"
+	"time"
 
 	"go.uber.org/multierr"
 	"go.uber.org/zap"
@@ -59,6 +60,15 @@ func (s *scriptSink) Sync() error {
 	return s.serr
 }
 
+// gateSink announces every entry and then blocks until released.
+type gateSink struct {
+	entered chan string
+	release chan struct{}
+}
+
+func (g *gateSink) Write(p []byte) (int, error) { g.entered <- "write"; <-g.release; return len(p), nil }
+func (g *gateSink) Sync() error                 { g.entered <- "sync"; <-g.release; return nil }
+
 type plainWriter struct{ s *scriptSink }
 
 func (p plainWriter) Write(b []byte) (int, error) { return p.s.Write(b) }
@@ -75,6 +85,10 @@ type c13Op struct {
 	Double bool    `json:"double,omitempty"`
 	W      string  `json:"w,omitempty"`
 	P      string  `json:"p,omitempty"`
+	Size   int     `json:"size,omitempty"`
+	Pre    int     `json:"pre,omitempty"`
+	First  string  `json:"first,omitempty"`
+	Second string  `json:"second,omitempty"`
 	G      int     `json:"g,omitempty"`
 	Calls  int     `json:"calls,omitempty"`
 }
@@ -163,6 +177,21 @@ func c13Gen(r *Rand, tier string, emit func(op any)) {
 	for _, w := range []string{"zapio", "stdlog", "testing", "bws"} {
 		for _, p := range payloads {
 			emit(c13Op{K: "writer", W: w, P: hx(p)})
+		}
+	}
+	// BufferedWriteSyncer over a sink that reports short counts / errors, payloads below, at and above the buffer size
+	for _, size := range []int{8, 64} {
+		for _, plen := range []int{0, 1, size - 1, size, size + 1, 3 * size} {
+			for _, pre := range []int{0, 3} { // bytes already buffered
+				for _, so := range [][]int{{-1, 0}, {1, 0}, {0, 1}, {1, 1}, {-1, 1}} {
+					emit(c13Op{K: "bwsw", Size: size, Len: plen, Pre: pre, N: so[0], E: so[1]})
+				}
+			}
+		}
+	}
+	for _, a := range []string{"write", "sync"} {
+		for _, b := range []string{"write", "sync"} {
+			emit(c13Op{K: "lockgate", First: a, Second: b})
 		}
 	}
 	nc := 4
@@ -345,6 +374,55 @@ func c13Exec(raw json.RawMessage) Result {
 		trimmed := len(bytes.TrimSpace(p)) != len(p)
 		return Result{Impl: map[string]any{"n": n, "err": err != nil}, Oracle: o,
 			Nontrivial: len(p) > 0, Shape: fmt.Sprintf("writer/%s/ws=%v/len%d", op.W, trimmed, bucket(len(p)))}
+	case "bwsw":
+		// oracle-only (the buffering machine itself is modelled under C12): whatever the sink does, the
+		// BufferedWriteSyncer must not report a short count together with a nil error.
+		sink := &scriptSink{n: op.N}
+		if op.E != 0 {
+			sink.err = errors.New("sink")
+		}
+		b := &zapcore.BufferedWriteSyncer{WS: sink, Size: op.Size}
+		if op.Pre > 0 {
+			_, _ = b.Write(make([]byte, op.Pre))
+		}
+		n, err := b.Write(make([]byte, op.Len))
+		_ = b.Stop()
+		o := ok()
+		if err == nil && n != op.Len {
+			o = bad("C13:short-count-nil-error:bws", "BufferedWriteSyncer(size %d, %d buffered) over a sink returning (%d, err=%v) reported (%d, nil) for %d bytes", op.Size, op.Pre, op.N, op.E != 0, n, op.Len)
+		}
+		return Result{Impl: map[string]any{"n": n, "err": err != nil}, Oracle: o, NoModel: true, Nontrivial: op.Len > 0,
+			Shape: fmt.Sprintf("bwsw/size%d/len%d/sink(%d,%d)", op.Size, bucket(op.Len), op.N, op.E)}
+	case "lockgate":
+		// deterministic mutual-exclusion probe: park the first operation INSIDE the sink, start the second one,
+		// and see whether it gets in while the first is still there.
+		g := &gateSink{entered: make(chan string, 4), release: make(chan struct{})}
+		l := zapcore.Lock(g)
+		call := func(kind string) {
+			if kind == "write" {
+				_, _ = l.Write([]byte("x"))
+			} else {
+				_ = l.Sync()
+			}
+		}
+		done := make(chan struct{}, 2)
+		go func() { call(op.First); done <- struct{}{} }()
+		<-g.entered // the first operation is inside the sink
+		go func() { call(op.Second); done <- struct{}{} }()
+		intruded := false
+		select {
+		case <-g.entered:
+			intruded = true
+		case <-time.After(30 * time.Millisecond):
+		}
+		close(g.release)
+		<-done
+		<-done
+		o := ok()
+		if intruded {
+			o = bad("C13:lock-overlap:"+op.Second+"-during-"+op.First, "a %s entered the locked sink while a %s was still inside it", op.Second, op.First)
+		}
+		return Result{Impl: map[string]any{"intruded": intruded}, Oracle: o, Nontrivial: true, Shape: "lockgate/" + op.Second + "-during-" + op.First}
 	case "lockconc":
 		s := &scriptSink{n: -1}
 		l := zapcore.Lock(s)
